@@ -315,4 +315,30 @@ theorem step_inv {s s' : St} {op : Op} (h : Inv s) (hguard : op.guard = true) (h
     · have := h1.fresh j hj; have := e2 j
       simp only [kids_setKids, cntL_reparent] at *; omega
 
+  | sortBy a k =>
+    simp only [step, bind_ok, nodeAt_ok] at hs
+    obtain ⟨t, hg, hs⟩ := hs
+    simp only [Except.ok.injEq] at hs; subst hs
+    have hko := kidsOK h.roots hg
+    have hp : (sortKidsBy (predOf k) t.kids).Perm t.kids := List.mergeSort_perm _ _
+    refine inv_put h.roots hg (by simp) (by simp)
+      (linkOK_setKids.2 fun k hk => hko k (hp.mem_iff.1 hk)) (fun j => ?_) (fun j hj => ?_)
+    · have := h.uniq j; simp only [kids_setKids, cntL_perm hp]; omega
+    · have := h.fresh j hj; simp only [kids_setKids, cntL_perm hp]; omega
+  | mkFrom b v =>
+    simp only [step, bind_ok, nodeAt_ok] at hs
+    obtain ⟨t, hg, hs⟩ := hs
+    simp only [Except.ok.injEq] at hs; subst hs
+    refine ⟨fun j => ?_, fun j hj => ?_, roots_append h.roots ?_⟩
+    · have := h.uniq j; have := h.fresh j
+      simp only [cntL_append, cntL_cons, cntL_nil, cnt_node, cntL_reparent, cntL_copyLp]
+      split <;> split <;> omega
+    · dsimp only at hj
+      have := h.fresh j (by omega)
+      simp only [cntL_append, cntL_cons, cntL_nil, cnt_node, cntL_reparent, cntL_copyLp]
+      rw [if_neg (by omega), if_neg (by omega)]; omega
+    · intro r hr
+      simp only [List.mem_singleton] at hr; subst hr
+      exact ⟨rfl, linkOK_node.2 (linkOK_reparent (linkOK_copyLp_any _ _ _))⟩
+
 end Fcppt.C09
